@@ -447,13 +447,18 @@ pub fn gen_group(r: &mut Rng) -> (String, usize) {
             // an extended-colour selector that is cut short (by the next group or by the final byte): what it leaves behind is
             // not prescribed - but it ends with its sequence, the next sequence is read on its own
             let t = *r.pick(&["38", "48", "58"]);
-            let g = match r.below(6) {
+            let g = match r.below(10) {
                 0 => format!("{t}"),
                 1 => format!("{t};5"),
                 2 => format!("{t};2"),
                 3 => format!("{t};2;{}", r.below(256)),
                 4 => format!("{t};2;{};{}", r.below(256), r.below(256)),
-                _ => format!("{t}:5"),
+                5 => format!("{t}:5"),
+                // colon forms with too few sub-parameters (counts are not to be subtracted from blindly)
+                6 => format!("{t}:2"),
+                7 => format!("{t}:2:{}", r.below(256)),
+                8 => format!("{t};2:{}", r.below(256)),
+                _ => format!("{t}:2:{}:{}", r.below(256), r.below(256)),
             };
             let n = g.split(';').count();
             (g, n)
